@@ -248,3 +248,32 @@ func c33EpochLen(maxEp int) int {
 	}
 	return k + 1
 }
+
+// C33a-3: totality for delta frames whose LENGTH FIELDS are extreme numerals
+// (too long for the symbolic-bytes harness above): the length field is one of
+// a table of boundary numerals with its last digit symbolic, the rest of the
+// frame is symbolic bytes. parseDeltaPush / extractPushData must not panic.
+var c33bigNumerals = []string{
+	"9223372036854775807", "9223372036854775806", "-9223372036854775808", "9223372036854775808",
+	"18446744073709551615", "4294967296", "2147483648", "-1", "00000000000000000001", "99999999999999999999",
+}
+
+func vh_C33_delta_extreme_lengths() {
+	num := []byte(c33bigNumerals[vChoice("numeral", len(c33bigNumerals))])
+	last := vByte("last_digit")
+	vAssume(last >= '0' && last <= '9')
+	num[len(num)-1] = last
+	which := vChoice("field", 2) // 0 prev_payload_length, 1 payload_length
+	tail := vString("tail", vChoice("taillen", 4))
+	var s string
+	if which == 0 {
+		s = "d1:1:e:" + string(num) + ":" + tail
+	} else {
+		s = "d1:1:e:1:x:" + string(num) + ":" + tail
+	}
+	_, err := parseDeltaPush(s)
+	vAssert(true, "returned")
+	vCover(err != nil, "rejected")
+	_, _, _, _, _, ok := extractPushData([]byte("__" + s))
+	vAssert(!ok || err == nil, "extractPushData rejects what parseDeltaPush rejects")
+}
